@@ -107,6 +107,59 @@ def vq_cases(ctx, rng, scale, add, dist, failures):
             dist['layout_' + layout] += 1
 
 
+def history_cases(ctx, rng, scale, add, dist, failures):
+    """nearest-code selection along HISTORIES of one module: training steps with dead-code revival, and codebook writes between calls
+    (load_state_dict, the `codebook` setter, a direct write) - every call must select against the codebook as it is at that call"""
+    import torch, copy
+    from vector_quantize_pytorch import VectorQuantize
+    n = (10 if not ctx.thorough else 80) * scale
+    for ci in range(n):
+        cosine = ci % 3 == 1
+        heads, sep = [(1, False), (2, False), (2, True)][(ci // 3) % 3]
+        d = rng.choice([2, 3])
+        K = rng.choice([4, 6, 8])
+        thr = [0, 2, 1, 0.5][ci % 4]
+        kw = dict(dim=d * heads, codebook_size=K, heads=heads, separate_codebook_per_head=sep, codebook_dim=d, use_cosine_sim=cosine,
+                  decay=rng.choice([0.5, 0.8]), threshold_ema_dead_code=thr)
+        torch.manual_seed(rng.randrange(10 ** 6))
+        vq = VectorQuantize(**kw)
+        ops = [rng.choice(['train', 'train', 'eval', 'frozen', 'load', 'setter', 'write']) for _ in range(rng.choice([4, 6]))]
+        ops = [['eval', 'train'][ci % 2]] + ops + ['eval']
+        for oi, op in enumerate(ops):
+            if op == 'load':
+                other = VectorQuantize(**kw)
+                other.train()
+                other(torch.randn(2, 3, kw['dim']))
+                vq.load_state_dict(copy.deepcopy(other.state_dict()))
+                dist['hist_writes'] += 1
+                continue
+            if op == 'setter':
+                vq.codebook = torch.randn_like(vq._codebook.embed) if (heads > 1 and sep) else torch.randn(K, d)
+                dist['hist_writes'] += 1
+                continue
+            if op == 'write':
+                with torch.no_grad():
+                    e = torch.randn_like(vq._codebook.embed)
+                    vq._codebook.embed.data.copy_(torch.nn.functional.normalize(e, dim=-1) if cosine else e)
+                dist['hist_writes'] += 1
+                continue
+            vq.train(op != 'eval')
+            x = torch.randn(2, rng.choice([2, 4]), kw['dim']) * rng.choice([1., 3.])
+            try:
+                with torch.no_grad():
+                    _, recs = vqrec.record_call(vq, x, **({'freeze_codebook': True} if op == 'frozen' else {}))
+            except Exception as ex:
+                failures.append({'key': f'vq-history:exception:{type(ex).__name__}', 'what': f'VectorQuantize({kw}) ops {ops[:oi + 1]}: {ex!r}', 'case': dict(kw=kw, ops=ops)})
+                break
+            for r in recs:
+                for h in range(r.H):
+                    cb = r.before['embed'][h]
+                    add(term(cosine, TOL_NAT, cb, r.xs[h], r.idx[h], r.quant[h], TOL_Q),
+                        dict(kind='vq-history', kw=kw, mode=op, head=h, exact=False, ops=ops[:oi + 1]), nontrivial(cb, r.xs[h], r.idx[h]))
+            dist['hist_calls'] += 1
+            dist['hist_revivals'] += int(op == 'train' and thr > 0 and any(r.before['embed'] != r.after['embed'] for r in recs))
+
+
 def make_input(rng, torch, layout, dim, exact, vq=None):
     b, n = rng.choice([(1, 1), (2, 3), (2, 5), (3, 2)])
     shape = {'seq': (b, n, dim), 'cfirst': (b, dim, n), 'image': (b, dim, 2, n)}[layout]
@@ -305,13 +358,14 @@ def correspond(ctx, scale):
     cases, meta, failures, samples = [], [], [], []
     nt = [0]
     dist = {k: 0 for k in ('vq_eval', 'vq_train', 'vq_frozen', 'exact', 'natural', 'cosine', 'layout_seq', 'layout_cfirst', 'layout_image',
-                           'rvq', 'rvq_shared', 'rvq_implicit', 'simvq', 'rsimvq', 'rpq', 'latent')}
+                           'rvq', 'rvq_shared', 'rvq_implicit', 'simvq', 'rsimvq', 'rpq', 'latent', 'hist_calls', 'hist_writes', 'hist_revivals')}
 
     def add(t, m, nontriv):
         cases.append(t)
         meta.append(m)
         nt[0] += bool(nontriv)
     vq_cases(ctx, rng, scale, add, dist, failures)
+    history_cases(ctx, rng, scale, add, dist, failures)
     residual_cases(ctx, rng, scale, add, dist, failures)
     other_cases(ctx, rng, scale, add, dist, failures)
     bad, broken = core.run_cases(ctx, 'c01', HEADER, cases, per_file=30)
